@@ -1,10 +1,8 @@
 (** Registry layer — the session's model registry.
-    Code modelled (read line by line):
-      core/system.py:492-495   _modelnamer, _backupnamer, currentmodel, _models
-      core/system.py:584-591   System.new_model
-      core/system.py:593-606   System.rename_model
-      core/system.py:608-614   System._rename_samename
-      core/system.py:640-644   System.close_model
+    Code modelled (read line by line; system.py line numbers drift with the
+    fix: commits, the function names are the anchor):
+      core/system.py  System.__init__   _modelnamer, _backupnamer, currentmodel, _models
+      core/system.py  System.new_model / rename_model / _rename_samename / close_model
       core/model.py:324-327    Model.rename  (old_name = self.name)
       core/model.py:350-352    Model.close
       core/model.py:867-872    ModelImpl.__init__ (auto name / validity)
@@ -12,6 +10,7 @@
       core/util.py:23-45       AutoNamer.get_next (recursion -> fuel)
       core/util.py:51-61       is_valid_name (ASCII part)
       core/api.py:90-121,317-335   new_model, new_space (implicit model), cur_model
+      core/parent.py:128       new_space makes its model the current one
       serialize/__init__.py:89-104, serializer_6.py:896-901,1056-1082
                                read_model = mx.new_model() ; rename(_name | name=, rename_old=True);
                                a failing read closes the temporary model (serializer_6.py:865-868)
